@@ -194,10 +194,13 @@ CLAIMED = {
              "assignment of iterations to threads, that two different iterations of one barrier interval never write the same node of a "
              "shared array nor write what the other reads (hand-written kernel footprints) — including the nowait overlaps and the ntheta%3 "
              "remainder ladders; the give smoothers need ntheta % 4 = 0 (machine-checked counterexample otherwise); the per-thread solver "
-             "scratch vectors are declared inside the region.  When a proof breaks the regenerated schedule is searched for a concrete "
-             "conflicting pair on all small shapes.",
-        design_ref="DESIGN.md section 4, C11", note="OpenMP runtime / memory model trusted; footprints hand-written, validated by TSan+Archer in the thorough tier; 36 owner-computes `parallel for` regions are outside the schedule model (TSan only).",
-        technique="translator (C++ -> Lean schedule) + Lean 4 proof (omega over generated terms) + bounded conflict search + TSan"),
+             "scratch vectors are declared inside the region.  The hand-written kernel footprints are compared on every run with the cells the "
+             "real kernels write / read (probe of every kernel x line x colour).  The 36 OTHER parallel regions (transfers, caches, rhs, "
+             "vector kernels, reductions ...) are regenerated by a second translator that admits only owner-computes loops; each gets a "
+             "generated, omega-proved separation lemma and C11o.owner_regions_race_free covers them for every shape.  When a proof breaks the "
+             "regenerated schedule is searched for a concrete conflicting pair on all small shapes.",
+        design_ref="DESIGN.md section R.2 / section 4, C11", note="OpenMP runtime / memory model trusted; both translators' syntactic recognition trusted (pinned region lists, failure = broken obligation); kernel footprints hand-written but checked against the real kernels every run; TSan+Archer in the thorough tier.",
+        technique="two translators (C++ -> Lean schedule terms) + Lean 4 proof (omega over generated terms) + footprint correspondence + bounded conflict search + TSan"),
     "C12": dict(
         category="proof",
         text="Lean 4 theorems: tasks with pairwise non-interfering footprints that respect their footprints commute, so every order of the "
